@@ -28,9 +28,14 @@ SingleErr == {[r |-> [frames |-> <<>>, err |-> e], list |-> FALSE] : e \in Errs}
 FrameSeqs == {<<>>} \cup {<<f>> : f \in FramesFew} \cup {<<f, g>> : f \in FramesFew, g \in FramesFew}
 ListOk    == {[r |-> [frames |-> fs, err |-> <<>>], list |-> TRUE] : fs \in FrameSeqs \ {<<>>}}
 ListErr   == {[r |-> [frames |-> fs, err |-> e], list |-> TRUE] : fs \in FrameSeqs, e \in {x \in Errs : x[3] # <<>>}}
-Responses == SingleOk \cup SingleErr \cup ListOk \cup ListErr
+\* errors preceded by partial output of the failing command (junk lines that belong to no frame)
+Junks == {<<<<Ka, <<98>>>>>>, <<<<KB, <<79,75>>>>, <<Ka, <<>>>>>>}
+JunkErr == {[r |-> [frames |-> <<>>, err |-> e], list |-> FALSE, junk |-> j] : e \in Errs, j \in Junks}
+           \cup {[r |-> [frames |-> fs, err |-> e], list |-> TRUE, junk |-> j] : fs \in {<<>>} \cup {<<f>> : f \in FramesFew}, e \in {x \in Errs : x[3] # <<>>}, j \in Junks}
+NoJunk(S) == {[r |-> a.r, list |-> a.list, junk |-> <<>>] : a \in S}
+Responses == NoJunk(SingleOk \cup SingleErr \cup ListOk \cup ListErr) \cup JunkErr
 
-Enc(a) == Encode(a.r, a.list)
+Enc(a) == EncodeJ(a.r, a.list, a.junk)
 \* a small, fixed selection for the exhaustive all-segmentations design check
 Pick(S, n) == IF Cardinality(S) <= n THEN S ELSE RandomSubset(n, S)
 
